@@ -59,6 +59,8 @@ pub struct ScriptStep {
     pub class: String,
     /// the model mutates an existing object in this step
     pub mutator: bool,
+    /// the pool global this step defines, if any
+    pub stored: Option<String>,
     /// a wrong outcome of this step can leave model and SUT in different states
     pub diverges: bool,
     pub nontrivial: bool,
@@ -1398,6 +1400,7 @@ pub mod lv {
                 op: s.op,
                 class,
                 mutator: is_mutator(s.op),
+                stored: s.store.map(pool_name),
                 diverges: is_mutator(s.op) || s.store.is_some() || s.op == "for-each",
                 nontrivial: boundary || (is_mutator(s.op) && shared_target),
             });
@@ -2568,6 +2571,7 @@ pub mod st {
                 op: s.op,
                 class,
                 mutator: is_mutator(s.op),
+                stored: s.store.map(pool_name),
                 diverges: is_mutator(s.op) || s.store.is_some(),
                 nontrivial: boundary || mb,
             });
@@ -2785,6 +2789,15 @@ pub mod st {
                     let n = self.len_of(&Arg::S(i));
                     let mut args = vec![Arg::S(i), Arg::Char(gen_char(self.c))];
                     args.extend(self.range_args(n, 2));
+                    // Generated programs must be bounded: with start = length the SUT skips the
+                    // validation of end and builds end-start fill characters (known finding
+                    // `string-fill!|start=len,end>len`); a huge end would exhaust memory, which
+                    // the driver can only report as inconclusive. Keep end small in that class.
+                    if let (Some(Arg::Int(a)), Some(Arg::Int(b))) = (args.get(2).cloned(), args.get(3).cloned()) {
+                        if a == n as i128 && b > n as i128 + 7 {
+                            args[3] = Arg::Int(n as i128 + 7);
+                        }
+                    }
                     Step { op, args, store: None }
                 }),
                 "string-append" => {
